@@ -145,9 +145,12 @@ def check(run, driver):
         kx, ky = int(rng.integers(3, 11)), int(rng.integers(3, 11)); kz = int(rng.integers(0, 3)) * (it % 4 != 0)
         d = kx + ky + kz
         N = int(rng.integers(4 * d, 8 * d))
+        if it % 8 == 0:      # always some of the widest, most strongly (equi)correlated blocks without a conditioning set: tiny but well-conditioned determinants
+            kx, ky, kz = 10, int(rng.integers(8, 11)), 0
+            d = kx + ky; N = int(rng.integers(4 * d, 8 * d))
         if it % 2 == 0:
             common = rng.standard_normal((N, 1))
-            rho = float(rng.uniform(0.5, 0.88))          # equicorrelated block: condition number (1+(d-1)rho)/(1-rho) stays moderate
+            rho = float(rng.uniform(0.5, 0.88)) if it % 8 else 0.88          # equicorrelated block: condition number (1+(d-1)rho)/(1-rho) stays moderate
             W = math.sqrt(rho) * common + math.sqrt(1 - rho) * rng.standard_normal((N, d))
         else:
             W = rng.standard_normal((N, d)) @ (rng.standard_normal((d, d)) * 0.3 + np.eye(d))
